@@ -35,7 +35,8 @@ func less(a, b any) bool {
 	case uint64:
 		return x < b.(uint64)
 	case float64:
-		return x < b.(float64)
+		y := b.(float64)
+		return (x != x && y == y) || x < y // NaN first: a total order even with NaN keys
 	}
 	return fmt.Sprintf("%#v", a) < fmt.Sprintf("%#v", b)
 }
